@@ -120,7 +120,7 @@ func c15TimeRange(c *Ctx) {
 	h.Instr = func(in ssa.Instruction, s0 an.TState) an.TState {
 		s := s0.(kvState)
 		if cl, ok := in.(*ssa.Call); ok {
-			if f := cl.Call.StaticCallee(); f != nil && an.PkgPathOf(f) == "time" && strings.HasPrefix(f.Name(), "Parse") {
+			if f := cl.Call.StaticCallee(); f != nil && (isTimeParse(f) || callsTimeParse(f)) {
 				for _, a := range cl.Call.Args {
 					if fromCol(a, 1) {
 						s.a = true
@@ -525,4 +525,115 @@ func c09GcRootKept(c *Ctx) {
 	}
 	c.R.Cond(found, rule, name+": the root node is taken off the deletion list", c.P.Pos(gc.Pos()), "a name taken from MakeRoot() is deleted from the candidate set",
 		"nothing removes the root node's own name from the deletion list: the walk over the retained tree reports what nodes link to, and the root node is linked by the version object only — a vacuum that finds nothing to purge on a tree that returned to earlier content deletes the root node of the current version")
+}
+
+// Shares found with the round-5 seeds: a change that breaks property X was already reported by a
+// rule written for property Y, because the clause is a necessary condition of both.
+func init() {
+	byProp["C01"] = append(byProp["C01"], "C03.commit-order")
+	byProp["C02"] = append(byProp["C02"], "C13.flag")
+	byProp["C16"] = append(byProp["C16"], "C13.flag")
+	byProp["C04"] = append(byProp["C04"], "C16.store-means-stored", "C09.gc-retires-first")
+	byProp["C06"] = append(byProp["C06"], "C20.schema")
+	byProp["C07"] = append(byProp["C07"], "C06.no-omit")
+	byProp["C08"] = append(byProp["C08"], "C07.convert-range")
+	byProp["C11"] = append(byProp["C11"], "C17.local-update", "C16.cache-scope")
+	byProp["C13"] = append(byProp["C13"], "C14.errors")
+	explain["C01"] += " commit-order (shared with C03): 'merging adds nothing when nothing new was committed; re-opening a quiescent table yields the same rows' — a merge-commit whose version PUT fails must not have retired the versions it merged."
+	explain["C02"] += " flag (shared with C13): an accepted statement takes part in every later merge only if its transaction was stored — the table's own options are never modified after the table was created (a query helper that sets ReadOnly on them makes xSync skip the commit)."
+	explain["C16"] += " flag (shared with C13): the same — 'immediately after a commit is acknowledged a fresh process can read it'."
+	explain["C04"] += " store-means-stored (shared with C16): a node counts as written only after this call's PUT succeeded — a record made before the PUT and kept when it fails lets the retried, byte-identical transaction skip its node PUTs and acknowledge a version whose nodes do not exist. gc-retires-first (shared with C09): 'every later open succeeds' after an interrupted vacuum."
+	explain["C06"] += " schema (shared with C20): the table's key column index is computed from maps that have been built (a read of a nil map yields 0: every table would be keyed by its first column while SQLite plans by the declared key)."
+	explain["C07"] += " no-omit (shared with C06): SQLite re-checks every constraint; the seek of a descending scan lands on the smallest key at or above the operand, so 'omit' on '=' would return the row of another key."
+	explain["C08"] += " convert-range (shared with C07): the float bounds of the INTEGER/REAL comparison are exact constants; with math.MaxInt64 (which rounds to 2^63) the REAL key 2^63 collides with an INTEGER key and a merged row is lost."
+	explain["C11"] += " local-update (shared with C17): a write that loses last-writer-wins stores nothing, so the tree stays clean and 's3db_version() is left unchanged by statements that change nothing'. cache-scope (shared with C16): the 'already stored' identity of a node includes the table's prefix, or a version committed through a shared cache lacks nodes for every other process."
+	explain["C13"] += " errors (shared with C14): 'write statements against it fail with an error' — the read-only refusal comes from the storage layer and reaches SQLite only if no layer in between drops it."
+}
+
+
+func isTimeParse(f *ssa.Function) bool {
+	return f != nil && an.PkgPathOf(f) == "time" && strings.HasPrefix(f.Name(), "Parse")
+}
+
+// callsTimeParse: a repository helper that parses a time (one level).
+func callsTimeParse(f *ssa.Function) bool {
+	if f == nil || !strings.HasPrefix(an.PkgPathOf(f), core.ModPath) {
+		return false
+	}
+	for _, call := range an.Calls(f) {
+		if isTimeParse(call.Common().StaticCallee()) {
+			return true
+		}
+	}
+	return false
+}
+
+// ---- C15.time-as-given: the attribute is the time that was written, to the nanosecond ------------------
+
+func init() {
+	register(&Rule{Name: "C15.time-as-given", Min: 2, Run: c15TimeAsGiven,
+		Doc: "what ConnModule.Update stores as write_time / deadline is the parsed time itself: no Truncate, Round or arithmetic on the way"})
+	byProp["C15"] = append(byProp["C15"], "C15.time-as-given")
+	byProp["C01"] = append(byProp["C01"], "C15.time-as-given")
+	byProp["C02"] = append(byProp["C02"], "C15.time-as-given")
+	explain["C15"] += " time-as-given: time.Parse accepts fractional seconds although the layout shows none, so write_time='… 00:00:00.250' is a valid, distinct time; the values stored into the connection's writeTime / deadline derive from the parse result through assignments, phis and helper returns only — never through a time.Time method that changes the instant (Truncate, Round, Add, AddDate) or a conversion through Unix seconds."
+	explain["C01"] += " time-as-given (shared with C15): two writers' pairwise distinct write times must stay distinct when stored, or their versions tie and the merge result depends on fold order."
+	explain["C02"] += " time-as-given (shared with C15)."
+}
+
+func c15TimeAsGiven(c *Ctx) {
+	const rule = "C15.time-as-given"
+	upd := mustFunc(c, "sqlite", "*ConnModule", "Update")
+	wtF := mustField(c, "sqlite", "S3DBConn", "writeTime")
+	dlF := mustField(c, "sqlite", "S3DBConn", "deadline")
+	if upd == nil || wtF == nil || dlF == nil {
+		return
+	}
+	changing := map[string]bool{"Truncate": true, "Round": true, "Add": true, "AddDate": true, "Unix": true, "UnixMilli": true, "UnixMicro": true, "Date": true}
+	var tainted func(v ssa.Value, d int) string
+	tainted = func(v ssa.Value, d int) string {
+		if d > 3 {
+			return ""
+		}
+		res := ""
+		an.DependsOn(v, func(w ssa.Value) bool {
+			cl, ok := w.(*ssa.Call)
+			if !ok || res != "" {
+				return false
+			}
+			f := cl.Call.StaticCallee()
+			if f == nil {
+				return false
+			}
+			if an.PkgPathOf(f) == "time" && changing[f.Name()] {
+				res = "time." + f.Name()
+				return false
+			}
+			if strings.HasPrefix(an.PkgPathOf(f), core.ModPath) && len(f.Blocks) > 0 {
+				for _, b := range f.Blocks {
+					if ret, ok := b.Instrs[len(b.Instrs)-1].(*ssa.Return); ok && len(ret.Results) > 0 {
+						if r := tainted(ret.Results[0], d+1); r != "" {
+							res = r + " in " + f.Name()
+						}
+					}
+				}
+			}
+			return false
+		})
+		return res
+	}
+	n := 0
+	for _, f := range c.Scope(upd).Funcs {
+		for _, fv := range []*types.Var{wtF, dlF} {
+			for _, st := range an.StoresToField(f, fv) {
+				n++
+				t := tainted(st.Val, 0)
+				c.R.Cond(t == "", rule, fmt.Sprintf("%s: %s is stored as parsed #%d", core.FuncName(upd), fv.Name(), n), c.P.Pos(st.Pos()), "derived from the parse result by assignment only",
+					"the stored "+fv.Name()+" passes through "+t+": write times that differ by less than the unit it rounds to become equal — two writers' distinct times tie, and which value survives the merge depends on the order in which versions are folded")
+			}
+		}
+	}
+	if n == 0 {
+		c.R.Unk(rule, core.FuncName(upd)+": attribute stores", c.P.Pos(upd.Pos()), "no store of writeTime / deadline found")
+	}
 }
